@@ -216,6 +216,10 @@ type FS struct {
 	// ShortWrite, when set, may shorten a write: it receives the path and the requested length and returns the
 	// number of bytes that are actually written (0 <= n <= len); the write then fails with ENOSPC if n < len.
 	ShortWrite func(path string, n int) int
+	// Delay, when set, makes an operation slow: it is called WITHOUT the FS lock, before the operation takes effect,
+	// and the calling goroutine sleeps (virtual time) for the returned duration. Only "sync" consults it: a stalled
+	// fsync is the window in which a file is already visible but its writer has not gone on yet.
+	Delay func(op string, path string) time.Duration
 	// OnJournal is called (with the FS lock held; must not call back into the FS) after op idx was appended.
 	OnJournal func(idx int, op *Op)
 
@@ -983,6 +987,11 @@ func (h *File) Seek(offset int64, whence int) (int64, error) {
 func (h *File) Sync() error {
 	if err := h.check("sync"); err != nil {
 		return err
+	}
+	if d := h.fs.Delay; d != nil {
+		if dd := d("sync", h.path); dd > 0 {
+			time.Sleep(dd)
+		}
 	}
 	h.fs.mu.Lock()
 	defer h.fs.mu.Unlock()
